@@ -1,3 +1,4 @@
+import Tumfl.Props.Print
 import Tumfl.Props.C08
 import Tumfl.Props.C11
 import Tumfl.Props.C06
@@ -12,6 +13,11 @@ import Tumfl.Props.C13
 #print axioms Tumfl.Props.C08_string_wrap
 #print axioms Tumfl.Props.C08_wrap_progress
 #print axioms Tumfl.Props.C02_boundary
+#print axioms Tumfl.Props.C08_comment_wf
+#print axioms Tumfl.Props.C08_comment_text
+#print axioms Tumfl.Props.Print_sim
+#print axioms Tumfl.Props.Print_sim_parseToks
+#print axioms Tumfl.Props.Print_readings
 #print axioms Tumfl.Props.C11_roundtrip
 #print axioms Tumfl.Props.C11_emit_is_par
 #print axioms Tumfl.Props.C11_emit_roundtrip
@@ -20,5 +26,6 @@ import Tumfl.Props.C13
 #print axioms Tumfl.Props.C06_quoted
 #print axioms Tumfl.Props.C06_long
 #print axioms Tumfl.Props.C06_forms
+#print axioms Tumfl.Props.C06_wrapped
 #print axioms Tumfl.Props.C07_partial
 #print axioms Tumfl.Props.C13_emit_on
